@@ -38,6 +38,16 @@ CHECKS = {
         text='BurstFraction over the inclusive window as an exact rational, labels = run filter of (fraction >= threshold), EffMinCycles routing (burst options, else thresholds, else 3) checked both at the recorded detector call and in the run filter; all masks x tilings x thresholds x min_n_cycles exhaustively against the real code, and every recorded run over the four routings.',
         design_ref='6/C07',
         note='neurodsp\'s sample-wise detector output is taken as recorded (arguments checked); masks to 7-8 samples exhaustively.'),
+    'C09': dict(
+        technique=TECH + 'self-composition: TLC trace validation (Trace_Relations) of pairs of recorded runs against the Mirror relation, each run also validated by Trace_Pipeline; mirror invariants of the specification model-checked on all small inputs with indexed conformance of the real feature functions',
+        text='Mirror(A,B) relates the trough-centred analysis of s and the peak-centred analysis of -s (name swap, negated extremum voltages, 1 - symmetry as exact rationals, bit-identical burst features, identical labels); TLC judges it on recorded pairs for both burst methods (with and without sample columns) and checks on all small inputs that the specification\'s centring-dependent definitions are mirror-consistent.',
+        design_ref='6/C09',
+        note='pairs are sampled from the generated corpus; the recorded environment outputs of the two runs must coincide (checked).'),
+    'C10': dict(
+        technique=TECH + 'self-composition: TLC trace validation (Trace_Relations) of pairs of recorded runs against AmpScaled / SameTable, each run also validated by Trace_Pipeline; rank/ratio scale-invariance invariants model-checked on small tables',
+        text='For power-of-two factors TLC requires identical indices, durations, ratios (bit-identical) and labels and voltage features / band_amp scaled by exactly the factor, and a bit-identical table when fs and both band edges are multiplied by c in {1/8,1/4,1/2,2,4}; the recorded environment outputs (sign pattern, mask, filter length) must coincide, which makes the neurodsp covariance assumption visible.',
+        design_ref='6/C10',
+        note='scale factors restricted to powers of two as the property states; pairs sampled from the generated corpus.'),
     'C08': dict(
         technique=TECH + 'exhaustive small-scope model checking with indexed conformance (IX) of the real function, plus TLC trace validation of recorded calls on long arrays',
         text='TLC enumerates every boolean array up to length 11 (thorough 15) x every min_n_cycles, runs a scanning state machine, '
